@@ -180,7 +180,7 @@ CHECKS["C14"] = {
     "level_text": "Generated mixes of 4-64 requests (sign over 5 signature types x 7 keys incl. two behind a latency-injecting recording token x 3 digests x generated bodies; list-keys; key-info incl. forbidden and unknown keys; health) are issued by 2-32 concurrent clients over TLS to the real daemon (one child process of the same race-built binary per mix, living exactly as long as Serve, like the serve command) with GOMAXPROCS in {2,4,16}, token cache expiry 1 s and an optional token rate limit; one mix in six shuts the daemon down while a request is parked inside the token. Each response is compared with its isolated verdict (signature applied to that request's own body verifies under relic's verifier and names that request's key and digest; listings equal the configuration), audit records are counted, and the whole run is under the race detector.",
     "level_note": "Interleavings are sampled by repetition, not enumerated; the race detector only sees accesses that happen. PKCS#11/cloud tokens and the worker subprocess path are not exercised here.",
     "quick": {"checks": 40, "timeout": 900, "vmem_kb": 0},
-    "thorough": {"checks": 1200, "timeout": 3400, "vmem_kb": 0, "shards": 4},
+    "thorough": {"checks": 450, "timeout": 3400, "vmem_kb": 0, "shards": 6},
 }
 CHECKS["C11"] = {
     "pkg": "./props/c11", "engine": "rapid+isolation-child (+ native go fuzz in thorough)",
